@@ -6,7 +6,7 @@ import ArvVerif.Props.C10
 import ArvVerif.Proofs.C10_Normalize
 import ArvVerif.Proofs.C10_Termination
 import ArvVerif.Proofs.C10_SizedDigests
-import ArvVerif.Proofs.C10_Reparse4
+import ArvVerif.Proofs.C10_Reparse5
 namespace ArvVerif.C10
 
 /-- **C10_resolve_bytes.** `resolve` is the document's semantics: for block contents `blk` of the
@@ -200,5 +200,48 @@ theorem C10_extract_reparses (blk : Bytes → Bytes) (txt srcpath relocate : Byt
       cases herr
     · exact ⟨_, m', hext, hstreams, h1, fun a b => by rw [h3 a b, hparsed]⟩
   · rw [hm] at h0; cases h0
+
+/-- **C10_extract_preserves — text level, end to end.** Under the hypotheses of `C10_extract_reparses`
+(in particular: every relocated path canonical), parse `Extract(srcpath, relocate)`'s output text
+again with the package: for *every* combined path `p`, the bytes of the segments `segment()` gives
+for `p` in the output are the concatenation, over the selected streams and their files in sorted
+order, of the bytes of the *source* segment lists of exactly those files whose relocated path is
+`p`. With `C10_extract_selects_dir/_file` (which streams/files are selected and how they are
+renamed) and `C10_pkg_bytes` (source segment lists = the document's bytes) this is: extracting
+preserves every file's byte sequence under its relocated, unescaped name, and nothing else appears. -/
+theorem C10_extract_preserves (blk : Bytes → Bytes) (txt srcpath relocate : Bytes) (m : SegMap)
+    (hm : pkgSegment txt = .ok m) (hok : ∀ o ∈ extractS m srcpath relocate, RenderOk blk o.1 o.2) :
+    ∃ out m', pkgExtract txt srcpath relocate = .ok out ∧ pkgSegment out = .ok m' ∧
+      ∀ a b : Bytes, segBytes blk (segLookup m' (splitPath (pathOf a b))) =
+        (extractS m srcpath relocate).flatMap fun o => (sortBytes (o.2.map (·.1))).flatMap fun fn =>
+          if pathOf o.1 fn = pathOf a b then segBytes blk (segsOfFiles o.2 fn) else [] := by
+  obtain ⟨out, m', h1, _, h3, h4⟩ := C10_extract_reparses blk txt srcpath relocate m hm hok
+  refine ⟨out, m', h1, h3, fun a b => ?_⟩
+  rw [h4 a b, outs_bytes blk _ (fun o ho => (hok o ho).consistent)]
+
+/-- the hypotheses of `C10_extract_reparses` / `C10_extract_preserves` are satisfiable: stream `.` with
+one file `f` of three bytes -/
+def wLoc : Bytes := [97, 97, 97, 97, 97, 97, 97, 97, 97, 97, 97, 97, 97, 97, 97, 97, 97, 97, 97, 97, 97, 97, 97, 97, 97, 97, 97, 97, 97, 97, 97, 97, 43, 51]
+def wFiles : List (Bytes × List Seg) := [([102], [⟨wLoc, 0, 3⟩])]
+
+set_option maxRecDepth 100000 in
+example : RenderOk (fun _ => [1, 2, 3]) [46] wFiles := by
+  have hall : allSegs wFiles = [⟨wLoc, 0, 3⟩] := by decide +kernel
+  have hsz : locSize wLoc = 3 := by decide +kernel
+  refine ⟨Or.inl rfl, by decide, ?_, ?_, by decide +kernel, ?_⟩
+  · intro s hs
+    rw [hall] at hs
+    simp only [List.mem_singleton] at hs
+    subst hs
+    exact ⟨by decide +kernel, by rw [hsz]; decide, by rw [hsz]; decide, by decide⟩
+  · rw [hall]
+    refine ⟨?_, ?_, ?_⟩
+    · intro s hs; simp only [List.mem_singleton] at hs; subst hs; rw [hsz]; rfl
+    · intro s _ s' _ _; rfl
+    · intro s hs; simp only [List.mem_singleton] at hs; subst hs; rw [hsz]; decide
+  · intro fn hfn
+    have : fn = [102] := by simpa [wFiles] using hfn
+    subst this
+    decide +kernel
 
 end ArvVerif.C10
